@@ -148,6 +148,11 @@ where
         // Capacity depends only on the slice length, so check it before the target is touched.
         let vec = unsafe { FlatVec::<T, L>::from_mut_bytes_unchecked(bytes) };
         if vec.capacity() < N {
+            // A valid target is left as it is. Bytes that are no valid vector (the tail of a composite
+            // that is being re-initialised) are made an empty one, so that a valid value is left behind.
+            if unsafe { FlatVec::<T, L>::validate_unchecked(bytes) }.is_err() {
+                unsafe { <Empty as Emplacer<FlatVec<T, L>>>::emplace_unchecked(Empty, bytes) }?;
+            }
             return Err(Error {
                 kind: ErrorKind::InsufficientSize,
                 pos: 0,
